@@ -60,7 +60,7 @@ PROPS['C16'] = {
     'level_text': 'Deductive proof (Verus/Z3) over the real bodies of to_layout, generate_tree, get_proof_by_index, check_merkle_tree, hash_check: '
                   'for every leaf count, index and stored row the generated proof verifies (completeness theorem), and with index and proof fixed '
                   'no other leaf value verifies (soundness lemma, H injective). Unbounded in tree size; this is the statement no finite test run gives.',
-    'level_note': 'SHA-2 uninterpreted; concat_and_hash, vec_compare, to_vec, ByteBuf assumed by contract; extraction rules X2 (step_by) and X4 (alpha-renaming) applied; from_leaves and file-level BMFF callers outside the unit.',
+    'level_note': 'SHA-2 uninterpreted; hash_by_alg, vec_compare, to_vec, ByteBuf assumed by contract; extraction rules X2 (step_by) and X4 (alpha-renaming) applied; from_leaves and file-level BMFF callers outside the unit.',
     'technique': 'Verus contracts (requires/ensures/loop invariants/decreases) + inductive lemmas on mechanically extracted real functions',
     'parts': [V('verus:merkle', 'merkle'),
               B('native:merkle_replay', 'sdk', [{'name': 'c16_generated_proofs_verify_natively'}], tier='thorough',
@@ -68,7 +68,7 @@ PROPS['C16'] = {
                 bounds='thorough tier only: leaf counts 1..=300 x every row x every index on the real code (replay driver / differential check of the assumed callee contracts)')],
     'trusted_base': TB_VERUS + [
         'SHA-2 is an uninterpreted function H(alg, bytes); leaf soundness additionally assumes H injective',
-        'concat_and_hash(alg, l, Some(r)) == H(alg, l ++ r) (external_body; the real body is hash_by_alg over the concatenation)',
+        'hash_by_alg(alg, data, None) == H(alg, data) (external_body); concat_and_hash is verified on its real body',
         'vec_compare(a, b) == (a == b) (external_body here; decided by Kani under C01)',
         '<[T]>::to_vec / Clone preserve contents (u8, MerkleNode)',
         'serde_bytes::ByteBuf is a newtype over Vec<u8> with Deref',
